@@ -12,6 +12,7 @@ it is within one base unit of `⌊w·R/T⌋`, the payouts never exceed what was 
 that were not counted receive nothing.
 -/
 import Canine.Proofs.StorageB
+import Canine.Generated.PureFns
 namespace Canine.Storage
 
 /-! ## Part A: the per-file loop -/
@@ -330,5 +331,22 @@ example :
                  Bank.bal s.bank "storage" "ujkl")) = some (2, 2, 0, 3) := by
   rw [wSorted]; decide
 
+
+/-! ## The share computation as it stands in the source (regenerated tie) -/
+
+/-- The amount `tokensValueOwed` that `rewardAllProviders` pays a prover for one released coin —
+sliced out of x/storage/keeper/rewards.go and translated on every run, as a function of the size
+credited to the prover, the network total and the released amount — is the expression the model's
+`payProver` evaluates and `C03_payout_close_to_share` bounds: the share `worth/total` rounded at
+the 18th decimal, times the amount, *truncated*. -/
+theorem C03_generated_payout_is_the_model (w T R : Int) :
+    Generated.Pure.rewardAllProviders_tokensValueOwed w T R =
+      (Dec.quo? (Dec.ofInt w) (Dec.ofInt T)).map (fun share => Dec.trunc (Dec.mul share (Dec.ofInt R))) ∧
+    Generated.Pure.rewardAllProviders_tokensValueOwed_inputs =
+      ["(*sizeTracker)[prover]", "totalSize", "coin.Amount"] := by
+  refine ⟨?_, rfl⟩
+  unfold Generated.Pure.rewardAllProviders_tokensValueOwed
+  simp only [bind, Option.bind]
+  cases Dec.quo? (Dec.ofInt w) (Dec.ofInt T) <;> rfl
 
 end Canine.Storage
